@@ -120,6 +120,7 @@ class RI:
         self.prog = prog
         self.inp = list(inp) + ([END] if with_end else [])
         self.ndata = len(inp)
+        self.with_end = with_end
         self.pos = 0
         self.store = Store(prog.outs)
         for o in prog.outs:
@@ -137,6 +138,7 @@ class RI:
         self.open_tail = False
         self.maybe_complete = False        # input ran out inside a statement that could already be complete
         self.foreach_stack = []
+        self.flags = set()
 
     # -- plumbing ----------------------------------------------------------------------------------
     def peek(self):
@@ -307,6 +309,8 @@ class RI:
         elif k == "hook":
             self.emit("hook", s.name, before=st.save())
         elif k == "yield":
+            if self.with_end and self.pos > self.ndata:
+                self.flags.add("yield-after-end")
             self.emit("yield", s.code, droppable=False)
         elif k == "finish":
             self.emit("finish", s.code, droppable=False)
@@ -362,6 +366,8 @@ class RI:
         elif k == "foreach":
             self.foreach(s, loops)
         elif k == "if":
+            if self.with_end and self.pos > self.ndata:
+                self.flags.add("if-after-end")
             for cond, body in s.branches:
                 t, v = self.ev(cond)
                 if carith.truthy(t, v):
@@ -475,6 +481,10 @@ class RI:
             self.result = ("fail",)
         except Exhausted:
             self.result = ("exhausted",)
+            if self.with_end:
+                # end() on an unfinished parse reports FAIL (the parse is incomplete)
+                self.emit("fail", None, droppable=False)
+                self.result = ("fail",)
         except BreakLoop:
             raise Unknown("break escaped")
         return self
@@ -613,4 +623,8 @@ def check(prog_ast, inp, items, prog_c, stats, with_end=False, max_runs=40, poin
     if queue and tried >= max_runs:
         stats["search_cap_hit"] = stats.get("search_cap_hit", 0) + 1
         return ("unknown", "decision search cap")
-    return first_fail[0]
+    what, text = first_fail[0]
+    fl = first_fail[1].flags
+    if fl and what in ("wrong-terminal", "wrong-event", "missing-event"):
+        what = "%s[%s]" % (what, "+".join(sorted(fl)))
+    return (what, text)
